@@ -19,7 +19,7 @@ PRED_SIG = {
     "P01": ("GHHV", 0),
     "P07": ("TTT", 0),
     "P06": ("GHTT", 0), "P06S": ("T", 0), "P04": ("GHT", 0), "P05": ("GHTV", 0), "J05": ("GHTV", 0), "P09": ("GHTV", 0), "P02": ("T", 0), "P03": ("GT", 0),
-    "W08": ("", 0), "P15": ("", 0), "P17": ("", 0), "P17D": ("", 0), "P18": ("GGTTUE", 0), "P18D": ("GGTTUE", 0), "P18F": ("G", 0),
+    "W08": ("", 0), "P15": ("", 0), "P17": ("", 0), "P16": ("", 0), "P17D": ("", 0), "P18": ("GGTTUE", 0), "P18D": ("GGTTUE", 0), "P18F": ("G", 0),
 }
 for k, v in PRED_SIG.items(): corr.OPSIG[k] = v
 
@@ -501,6 +501,33 @@ PROPS["C17"] = dict(
                  "the window-end and geodesic theorems are proved for groups with exp(log X) = X proved (SO2, SE2, Rn); for the others they are evaluated on the implementation (tolerance 1e-6)"],
 )
 
+
+P16_PAIRS = ["result is a valid element", "mean_i log(m^-1 X_i) = 0 (stationary)", "independent of the order of the points", "commutes with left translation", "commutes with right translation", "identical points return that point"]
+def gen_p16(g, gn):
+    gd = corr.group(gn)
+    C = corr.gen_elem(g, gd, True, kmax=3); gg = corr.gen_elem(g, gd, True, kmax=3)
+    n = g.r.choice([0, 1, 2, 3, 5, 8, 20]); g.note("p16_n:%d" % n)
+    rad = g.r.choice([Fr(1, 100), Fr(1, 10), Fr(1, 4)]); g.note("p16_radius:%s" % fs(rad))
+    ds = [[rad * Fr(g.r.randint(-100, 100), 100) for _ in range(gd.dof)] for _ in range(n)]
+    kind = g.r.randint(0, 3); g.note("p16_kind:%d" % kind)
+    return dict(group=gn, op="P16", mask="-", iarg=kind, flt=0, args=[rot_slot(gd), gg, C] + ds)
+def p16_post(c, outs, sc):
+    # right translation is only claimed for the bi-invariant mean and the two Frechet variants; the weighted average() only left
+    return []
+def p16_drop(c, bad):
+    # for the weighted average() the property claims validity, identical points and left translation only
+    return [(k, why) for k, why in bad if not (k in (1, 2, 4) and c["iarg"] == 1)]
+
+PROPS["C16"] = dict(
+    vfiles=["Properties_C16.v"], level="proof",
+    groups=BASE_GROUPS,
+    corr_ops=["Average"],
+    preds=[dict(op="P16", pairs=P16_PAIRS, scalars=("d",), dtol=1e-6, dscale=lambda c: (1 + maxabs(c)) ** 2, gen=gen_p16, drop=p16_drop)],
+    n=dict(quick=(12, 40), thorough=(150, 400)),
+    assumptions=["model = hand-written Gallina mirror of algorithms/average.h (four routines as loops on the iteration budget, the stopping tests, the distinct use of the eps argument and Constants::eps); tied to /repo by exact comparison over the rational scalar for 0..3 points and 0..2 iterations (exact rationals grow with every iteration)",
+                 "proved over the reals: the theorems of Properties_C16.v; convergence within the budget, order-independence, right-equivariance and the Frechet / weighted variants beyond empty and single inputs are evaluated on the implementation in double (clouds of 0..20 points within radius 0.01..0.25 of a centre, tolerance 1e-6)"],
+)
+
 # ------------------------------------------------------------------ generic engine
 def mkgen(pid, seed, salt=0):
     return G((seed * 1000003 + zlib.crc32(pid.encode()) + salt) & 0x7fffffff)
@@ -592,6 +619,7 @@ def eval_preds(P, pcases, log, scalars=("q", "d")):
                 bad = vcheck.pair_failures(outs, False, tol={"d": pd.get("dtol"), "f": pd.get("ftol", 1e-3), "h": pd.get("htol", 1e-9)}[sc],
                                            scale_fn=(lambda k, a, b, s, s0=s0: max(s, s0)) if s0 is not None else None)
             if pd.get("post"): bad = bad + pd["post"](c, outs, sc)
+            if pd.get("drop"): bad = pd["drop"](c, bad)
             th2, lin = tangent_stats(c) if bad else (None, None)
             ra_ = rot_angles(c) if bad else {}
             for k, why in bad:
